@@ -145,7 +145,7 @@ theorem C11_relay_ok (errAt : Option Nat) (p : String) (size : Nat) (mtime : Int
     (x x' : XState) (off off' : Nat)
     (h : chunkLoop errAt p size mtime s x off = (none, x', off')) (hsz : off' = size) :
     terminated s = true ∧ off + total (consumed s) = size ∧
-    x'.dest = x.dest ++ (consumed s).map (fun c => Cmd.createOrUpdateFile p c.1 (if c.2 then none else some mtime) c.2) ∧
+    x'.dest = x.dest ++ (consumed s).map (fun c => chunkCmd p c.1 mtime c.2) ∧
     x'.src = x.src := by
   induction s generalizing x off with
   | nil => simp [chunkLoop] at h
@@ -194,16 +194,17 @@ theorem C11_copy_file_ok (c : Ctx) (hdry : c.dryRun = false) (errAt : Option Nat
     (p : String) (mtime : Int) (size : Nat) (x x' : XState) (st st' : Stats)
     (h : copyOne c errAt files p (.file mtime size) x st = (none, x', st')) :
     terminated (fileScript files p) = true ∧ total (consumed (fileScript files p)) = size := by
-  simp only [copyOne, hdry, Bool.false_eq_true, ↓reduceIte] at h
-  split at h
-  · cases h
-  · next xx off hc =>
-    split at h
-    · cases h
-    · next hoff =>
-      have hoff' : off = size := by simpa using hoff
-      obtain ⟨t, hsum, _, _⟩ := C11_relay_ok errAt p size mtime _ _ _ 0 off hc hoff'
+  simp only [copyOne, hdry, Bool.false_eq_true, ↓reduceIte, copyFileReal] at h
+  generalize hr : chunkLoop errAt p size mtime (fileScript files p) (x.sendSrc (.getFileContent p)) 0 = r at h
+  obtain ⟨e, xx, off⟩ := r
+  cases e with
+  | some e => simp at h
+  | none =>
+    simp only at h
+    by_cases hoff : off = size
+    · obtain ⟨t, hsum, _, _⟩ := C11_relay_ok errAt p size mtime _ _ _ 0 off hr hoff
       exact ⟨t, by omega⟩
+    · simp [hoff] at h
 
 /-- Non-vacuity: a 3-chunk stream that totals the size succeeds; the same stream against a size of 0
 or with one extra chunk at the boundary (the two shapes the unrepaired code accepted) fails. -/
